@@ -339,7 +339,7 @@ def c20(tier, seed):
     st = Stage('mocker', mc=('MockerMC', 'Mocker_quick.cfg' if quick else 'Mocker_thorough.cfg'),
                emit=('MockerMC', 'Mocker_quick_emit.cfg' if quick else 'Mocker_thorough_emit.cfg'),
                extra_emits=[('MockerMC', 'Mocker_sim_emit.cfg', dict(simulate='num=%d' % (8000 if quick else 120000), depth=9, seed=None))]
-               + ([] if quick else [('MockerMC', 'Mocker_thorough4_emit.cfg', {})]),
+               + [('MockerMC', 'Mocker_twins_emit.cfg', {})] + ([] if quick else [('MockerMC', 'Mocker_thorough4_emit.cfg', {})]),
                driver='mocker', trace=('MockerTrace', 'MockerTrace.cfg'),
                nontrivial=lambda tr: sum(1 for e in tr['ev'] if e['k'] in ('single', 'batch')) >= 2)
     return dict(stages=[st],
